@@ -171,7 +171,48 @@ class MarlDriver:
         pass
 
 
-def make_driver(cfg: Dict, marl: bool = False):
+class GameStepDriver:
+    """A scenario WITHOUT an RL agent, advanced by `PrimaiteGame.step()` (the loop the game offers for scripted agents only; its call
+    order is pinned by Gen/Episode.lean `gameStepPipeline`).  `reset` builds a new game from the configuration, as the environments do."""
+
+    def __init__(self, cfg: Dict):
+        from primaite.game.game import PrimaiteGame
+        self.cfg = copy.deepcopy(cfg)
+        self.episode_counter = 0
+        self.game = PrimaiteGame.from_config(copy.deepcopy(self.cfg))
+
+    def reset(self, seed=None, options=None):
+        from primaite.game.game import PrimaiteGame
+        from primaite.simulator.system.core.packet_capture import PacketCapture
+        if seed is not None:
+            import random
+
+            import numpy as np
+            random.seed(seed)
+            np.random.seed(seed)
+        self.episode_counter += 1
+        PacketCapture.clear()
+        self.game = PrimaiteGame.from_config(copy.deepcopy(self.cfg))
+        self.game.setup_for_episode(episode=self.episode_counter)
+        return {}, {}
+
+    def step(self, _action=None):
+        self.game.step()
+        rewards = {name: agent.reward_function.current_reward for name, agent in self.game.agents.items()}
+        info = {"agent_actions": {name: agent.history[-1] for name, agent in self.game.agents.items()}}
+        return {}, rewards, False, self.game.calculate_truncated(), info
+
+    def action_masks(self):
+        return {}
+
+    def close(self):
+        self.game.close()
+
+
+def make_driver(cfg: Dict, marl=False):
+    """marl: False = PrimaiteGymEnv, True = MarlDriver, "game" = GameStepDriver."""
+    if marl == "game":
+        return GameStepDriver(cfg)
     return MarlDriver(cfg) if marl else scen.make_env(cfg)
 
 
@@ -305,7 +346,7 @@ def _scripted_stats(env, p: Play) -> None:
 def play(env, ops: List[Any], max_len: Optional[int], p: Optional[Play] = None, announce: bool = True) -> Play:
     """Execute `ops` on a driver (PrimaiteGymEnv or MarlDriver), evaluating the episode contract after every operation."""
     p = p or Play()
-    marl = isinstance(env, MarlDriver)
+    marl = isinstance(env, (MarlDriver, GameStepDriver))
     if announce:
         n_agents = len(env.game.agents)
         ml = max_len if max_len is not None else env.game.options.max_episode_length
